@@ -7,7 +7,7 @@ from .. import cases, common, env, preds, refmodels, runner, strategies as S, su
 from ..runner import Failure, Leg, Result
 
 PROP = "C05"
-PRES = ["list", "list", "array", "dict-str", "dict-int", "names", "names-array"]
+PRES = ["list", "list", "array", "dict-str", "dict-int", "names", "names-array", "dict-mixed"]
 
 
 def evaluate(case):
